@@ -450,7 +450,7 @@ def check_C05(tier):
     if tier == "thorough":
         cfgs += [mk("p3f3sat", [3, 2, 1], 3, "fair", 1, 0, sat=True), mk("p2revsat", [2, 1], 3, "rev", 2, 0, sat=True),
                  mk("p4sat", [4, 3, 2, 1], 7, "rate", 1, 0, sat=True), mk("p4fsat", [4, 3, 2, 1], 5, "fair", 1, 0, sat=True)]
-    return v2_property("C05", tier, cfgs, "stall",
+    return v2_property("C05", tier, cfgs, "stall", v1kinds=("sat",),
                        nontrivial=lambda t: t["Q"] is not None and t["R"] > t["reset"]["H"],
                        rule="saturated PrioV2 configurations (infinite supply, every release order and grouping enumerated by TLC); paths replayed "
                             "with every input topped up before each scheduler step; verdict by Mon_Prio: per-priority received - release-issued "
@@ -583,6 +583,10 @@ def v1_configs(kind, tier):
                 mk1("v1aloneskew", [10, 1], {10: 1, 1: 2}, 11, "rate", 2, 2, 3, extra=al),
                 mk1("v1aloneunbuf", [2, 1], {2: 1, 1: 2}, 3, "rate", 2, 2, 3, extra=al, unbuf=[1]),   # the other input is unbuffered, open and idle
                 mk1("v1alonezero", [3, 2, 1], {3: 1, 2: 2, 1: 3}, 1, "rate", 3, 2, 3, extra=al)]   # fatal by the subset definition: F4
+    if kind == "sat":   # C05 on v1: static saturated inputs; H not a multiple of the number of priorities, Rate with a rounding remainder
+        return [mk1("v1satfair", [3, 2, 1], {3: 1, 2: 2, 1: 3}, 4, "fair", 3, 2, 100000, saturated=True),
+                mk1("v1satrate", [4, 3, 2, 1], {4: 1, 3: 2, 2: 3, 1: 4}, 15, "rate", 4, 2, 100000, saturated=True),
+                mk1("v1satfair5", [3, 2, 1], {3: 1, 2: 2, 1: 3}, 5, "fair", 3, 1, 100000, saturated=True, outcap=1, fbcap=1)]
     if kind == "fault":
         return [mk1("v1fault", [2, 1], {2: 1, 1: 2}, 3, "rate", 2, 2, 6, graceful=True, faults=1),
                 mk1("v1faultfair", [3, 2, 1], {3: 1, 2: 2, 1: 3}, 4, "fair", 3, 1, 4, graceful=True, faults=1),
